@@ -196,14 +196,18 @@ def r4(ctx):
             # the listener is consulted when no connection matches - or when the matching one is dead (state Closed: it only waits for
             # its owner to drop the handle) and the segment is a fresh SYN
             dead = []
+            # polarity of the state test: `t.state == Closed` (true = dead) or `t.state != Closed` (true = alive)
+            neg = any(t2["f"].endswith("::ne") for fb2 in ctx.w.family(d.id) for _, t2 in fb2.calls(re.compile(r"PartialEq.*::(eq|ne)$"))
+                      if any("field:turmoil_net::kernel::socket::Tcb::state" in Slicer(ctx.w).atoms(fb2, a) for a in t2["args"]))
             for s2, te, fe, o in guards_on(d, lambda o: True):
                 at = Slicer(ctx.w, into_callees=2).atoms(d, d.term(s2)["d"])
                 if "field:turmoil_net::kernel::socket::Tcb::state" in at:
-                    dead += te + fe
+                    dead += (fe if neg else te)
             ok = all(d.dominated_by_any(x, edges=[ne] + dead) for x in fl) and bool(se) and all(d.dominated_by_edge(x, se) for x in hoc)
             revives = bool(dead) and any(x in d.reachable(se[1]) for x in fl)
         ctx.inst(R, "tcp-deliver:connection-before-listener", ok, d.span, "a live 4-tuple wins over a listener" if ok else
-                 "the listener is consulted before / without the 4-tuple lookup failing: segments of an established connection can reach the listener")
+                 "the listener is consulted before / without the 4-tuple lookup failing or the matching connection being dead: segments of a live connection (a retransmitted SYN for a "
+                 "child still in SynReceived) reach the listener, which forks a second child for the same 4-tuple - connect returns Ok, accept never sees the connection")
         ctx.inst(R, "tcp-deliver:dead-connection-yields-to-listener", bool(ves and fl and revives), d.span, "a SYN that reuses the pair of a Closed connection reaches the listener" if ves and fl and revives else
                  "a segment whose 4-tuple matches a socket in state Closed (reset, timed out or fully closed, but its handle not yet dropped) is always handed to that dead socket, "
                  "which ignores it: once the peer's ephemeral port comes round again every SYN is swallowed and connect() ends in TimedOut although a listener is up")
